@@ -1085,6 +1085,8 @@ def run(ctx):
                 'oracle cases are (run, pass) pairs, on fresh fitters and along sequences of 2-4 calls sharing one Baseline object '
                 '((num_knots, degree) pairs with equal sum / equal number of basis functions, different methods in a row)')
     ctx.trusted += [
+        'tools/gen_c07hosts.py: branch tests of every modelled host (ast) pinned against coq/C07/Hosts.v; code paths inside helpers '
+        'that are not in its HOSTS table are not pinned',
         '2-D: scipy.sparse kron / identity / @ / + and spsolve (modelled by the index functions of C20/Model.v; contract of '
         'spsolve sampled by the oracle); the array algebra of _make_btwb / rhs / output is C20 (imported theorems)',
         'banded solvers (scipy solveh_banded / solve_banded): Section variable with contract den(lhs) * solve = rhs; '
@@ -1102,9 +1104,18 @@ def run(ctx):
         ctx.broke('grep-gate-2d', '; '.join(bad[:10]))
     else:
         ctx.discharged.append('grep-gate:2d-closure')
-    ctx.translate(['GenBands', 'GenC20'])
+    ctx.translate(['GenBands', 'GenC20', 'GenC07Hosts'])
     ok = ctx.build_props(extra=['C07/Float.vo'])
     ok = ctx.build_props(rel='props/C07_2d.v', extra=['C07/Float2D.vo']) and ok
+    ok_hosts = ctx.build_props(rel='props/C07_hosts.v', extra=['C07/Hosts.vo'])
+    if not ok_hosts:
+        # name the hosts whose branch structure changed (new code path, e.g. gated on the data size)
+        vals = ctx.coq_eval('hosts', 'From Coq Require Import String List.\nFrom PB Require Import gen.GenC07Hosts C07.Hosts.\n'
+                            'Eval vm_compute in diff_hosts.\nEval vm_compute in size_gated.\nEval vm_compute in module_constants.\n')
+        ctx.broke('translate:hosts-branch-structure',
+                  f'a modelled host has a code path the C07 models do not describe; hosts that differ: {vals[0] if vals else "?"}; '
+                  f'size-gated tests: {vals[1] if vals and len(vals) > 1 else "?"}')
+    ok = ok and ok_hosts
     correspondence(ctx)
     c07_2d.correspondence_2d(ctx)
     budget = 1 if (ok and not ctx.broken) else 4
@@ -1135,7 +1146,7 @@ def replay(rep):
         def broke(self, *a):
             self.fails.append(a)
     c = _C()
-    if case.get('kind') in ('oracle2d', 'capture2d'):
+    if case.get('kind') in ('oracle2d', 'capture2d', 'large2d'):
         import sys
         return c07_2d.replay_2d(case, sys.modules[__name__])
     if case.get('kind') == 'smooth':
